@@ -245,19 +245,30 @@ static bool apply(World& w, const std::string& op, std::vector<Finding>* f, cons
     {
         if (!w.rlib[i])
             return false;
-        try
+        // the failing lookup is made twice on the same library object, and once more on a copy made after the failure:
+        // every one of them has to raise (a lookup must not remember a failure as an answer)
+        for (int attempt = 0; attempt < 3; attempt++)
         {
-            auto s = w.lib[i]->load<int()>("vp_no_such_symbol");
-            fail("missing-symbol-does-not-raise", "load returned");
-        }
-        catch (nitro::dl::exception& e)
-        {
-            if (e.dlerror().empty())
-                fail("dl-exception-without-loader-diagnostic", "dlerror() is empty for a missing symbol");
-        }
-        catch (std::exception& e)
-        {
-            fail("wrong-exception-type", std::string("missing symbol raised ") + e.what() + " which is not nitro::dl::exception");
+            try
+            {
+                if (attempt < 2)
+                    auto s = w.lib[i]->load<int()>("vp_no_such_symbol");
+                else
+                {
+                    Lib copy(*w.lib[i]);
+                    auto s = copy.load<int()>("vp_no_such_symbol");
+                }
+                fail("missing-symbol-does-not-raise", "lookup #" + std::to_string(attempt + 1) + " of a missing symbol returned");
+            }
+            catch (nitro::dl::exception& e)
+            {
+                if (e.dlerror().empty())
+                    fail("dl-exception-without-loader-diagnostic", "dlerror() is empty for a missing symbol");
+            }
+            catch (std::exception& e)
+            {
+                fail("wrong-exception-type", std::string("missing symbol raised ") + e.what() + " which is not nitro::dl::exception");
+            }
         }
     }
     else if (c == "cl")
